@@ -11,9 +11,11 @@
 (* Three families of cases, all with the verdict `accept` of this module:   *)
 (*  class  one output quantity of a given value class, written in a given   *)
 (*         CBOR integer form, in a transaction that conserves value by      *)
-(*         construction (the other quantities are admissible);              *)
+(*         construction (the other quantities are admissible; only the two  *)
+(*         representatives of magnitude 2^200 are balanced by their         *)
+(*         opposite number, which is inadmissible as well);                 *)
 (*  pair   PairForge with exact magnitudes 1, 2^63, 2^64-1, 2^64;           *)
-(*  tx     every small transaction over the scaled domain -MaxQ-1..MaxQ+1,  *)
+(*  tx     every small transaction over the scaled domain TxOuts,           *)
 (*         where MaxQ is the image of 2^64-1; the driver replays it under   *)
 (*         q |-> q * (2^64-1)/MaxQ, which preserves sums and the two range  *)
 (*         boundaries exactly (homomorphic scaling, DESIGN section 1).      *)
